@@ -240,6 +240,10 @@ func newLikeIndexCmp(filterValue string, isLike bool, isCaseInsensitive bool) (*
 }
 
 func (m *indexLikeMatcher) Match(val client.NormalValue) (bool, error) {
+	if val.IsNil() {
+		// null is never LIKE anything (and always NOT LIKE), as on the scan path
+		return !m.isLike, nil
+	}
 	strVal, ok := val.String()
 	if !ok {
 		if strOptVal, ok := val.NillableString(); ok {
